@@ -182,8 +182,8 @@ def main():
     args = vlib.std_args()
     ck = Check("C09", args.tier, args.seed)
     ck.proofs("Props/C09.v", extra_trusted=[
-        "py/decgen.py renders the generated tables to .dec text; that DecFileParser reads that text into these tables is "
-        "property C01's business and is part of this check's tie only through this correspondence",
+        "py/decgen.py renders the generated tables to .dec text; the model is handed that same text (coq/Dec/Pipeline.v: front-end model "
+        "of C02, model of parse(), build) — no table is computed in Python for it",
         "hand-written model coq/Dec/Tables.v `build` tied by correspondence"])
     if args.replay:
         cases = json.loads(Path(args.replay).read_text())["cases"]
@@ -192,12 +192,13 @@ def main():
     impl = vlib.run_impl("c09.py", cases)
     flat_cases, terms, flat_impl = [], [], []
     for c, res in zip(cases, impl):
-        T = coq_tables(first_tables(c["stmts"]))
         for (m, S, kind), r in zip(c["queries"], res):
             flat_cases.append({"text": c["text"], "stmts": c["stmts"], "queries": [[m, S, kind]]})
-            terms.append(f"vbuild (build 60 {T} {clist([cstr(s) for s in S])} {cstr(m)})")
+            # the model reads the same TEXT the implementation reads (coq/Dec/Pipeline.v: front end, parse(), build)
+            terms.append(f"text_chain cc sc_of 60 {cstr(c['text'])} {clist([cstr(s) for s in S])} {cstr(m)}")
             flat_impl.append(r)
-    model = vlib.run_model("C09", ["Lib.PyDict", "Decay.ChainDict", "Dec.Tables"], "fun v : val => v", terms, shard=150)
+    model = vlib.run_model("C09", ["Lib.PyDict", "Decay.Conj", "Decay.GenTables", "Decay.ChainDict", "Dec.Tables", "Dec.Pipeline"], "fun v : val => v", terms, shard=100,
+                           preamble="Definition sc_of (n : string) : option bool := pd_get n (t_selfconj gen_tables).")
     diffs = vlib.compare_veq(ck, flat_cases, flat_impl, model)
     ck.cov["distinct_nontrivial"] = len({json.dumps(c, sort_keys=True) for c, r in zip(flat_cases, flat_impl) if isinstance(r, list) and "{" not in json.dumps(r)[:0] and json.dumps(r).count("[") > 8})
     ck.cov["rule"] = ("random acyclic table sets (1..10 decaying particles, 0..4 lines, 0..4(+repeats) daughters, empty blocks, "
